@@ -308,6 +308,16 @@ def c18_body_case(content, ch, junk):
     b = frame.marshal(body.ContentBody(content), ch)
     if b != refenc.body_frame(content, ch):
         return (refenc.body_frame(content, ch).hex()[:200], b.hex()[:200])
+    # one body object, sent twice (on two channels), given as each byte container: same bytes both times, and the
+    # object still reports its own content and length afterwards
+    for mk in (bytes, bytearray, lambda c: type('B', (bytes,), {})(c)):
+        given = mk(content)
+        obj = body.ContentBody(given)
+        first = frame.marshal(obj, ch)
+        second = frame.marshal(obj, (ch + 1) % 65536)
+        if first != b or second[7:] != b[7:] or len(obj) != len(content) or bytes(obj.value) != content or bytes(given) != content:
+            return ('%s body: identical frames on re-sending, len %d, content kept' % (type(given).__name__, len(content)),
+                    'second payload %d bytes, len(body) %d, caller\'s object %d bytes' % (len(second) - 8, len(obj), len(given)))
     n, ch2, f = frame.unmarshal(b + junk)
     if n != len(content) + 8 or ch2 != ch or not isinstance(f, body.ContentBody) or f.value != content \
             or len(f) != len(content) or len(body.ContentBody(content)) != len(content):
@@ -794,11 +804,13 @@ def c06_envelope_case(m):
 
 @replayer
 def c07_case(data, k):
-    with real.deadline(5):
-        kk, r = catching(frame.unmarshal, data[:k])
-    if kk == 'err' and isinstance(r, exceptions.UnmarshalingException):
-        return None
-    return ('UnmarshalingException', '%s %r' % (kk, r if kk != 'ok' else (r[0], r[1], type(r[2]).__name__)))
+    # the prefix as a receive loop may hold it: bytes, a bytearray, a memoryview
+    for label, buf in (('bytes', data[:k]), ('bytearray', bytearray(data[:k])), ('memoryview', memoryview(data[:k]))):
+        with real.deadline(5):
+            kk, r = catching(frame.unmarshal, buf)
+        if not (kk == 'err' and isinstance(r, exceptions.UnmarshalingException)):
+            return ('UnmarshalingException (%s input)' % label, '%s %r' % (kk, r if kk != 'ok' else (r[0], r[1], type(r[2]).__name__)))
+    return None
 
 
 def oracle_c07(ctx):
@@ -942,6 +954,19 @@ def fault_stream(ctx, frames, per_frame):
         yield queue_declare(b'\x01kA' + struct.pack('>I', inflated) + b'b\x01b\x02b\x03')
         yield queue_declare(b'\x01kF' + struct.pack('>I', inflated) + b'\x01ab\x01')
         yield queue_declare(b'\x01kA' + struct.pack('>I', inflated))
+    # short strings (method arguments, properties, table keys) full of octets that are not UTF-8, at every length limit
+    def close_frame(ss):
+        payload = struct.pack('>I', 0x000A0032) + b'\x00\xc8' + bytes([len(ss)]) + ss + b'\x00\x00\x00\x00'
+        return refenc.envelope(1, 0, payload)
+
+    def ctype_header(ss):
+        return refenc.envelope(2, 1, b'\x00\x3c\x00\x00' + b'\x00' * 8 + b'\x80\x00' + bytes([len(ss)]) + ss)
+    for n in (1, 2, 3, 4, 127, 128, 254, 255):
+        for ss in (b'\x80' * n, b'\xbf' * n, b'\xff' * n, b'\xc3' + b'\xa9' * (n - 1), (b'a' * (n - 1) + b'\xc3'), (b'a' * max(n - 2, 0) + b'\xe2\x82')[:n],
+                   (b'\xf0' + b'\x9f' * (n - 1)), (b'\xed\xa0\x80' * n)[:n], (b'\xc0\xaf' * n)[:n], (b'\xe9' * n)):
+            yield close_frame(ss)
+            yield ctype_header(ss)
+            yield queue_declare(bytes([len(ss)]) + ss + b'V')
     # a failing value under a key / next to a string that means something to a formatting or escaping step
     bad_values = [b'Z', b'T' + b'\xff' * 8, b'S\x00\x00\x00\x09ab', b'F\x00\x00\x00\x03\x01\xffV', b'A\x00\x00\x00\x01Z', b'D\x00', b'x\xff\xff\xff\xff', b'']
     for kname in G.FORMAT_STRINGS + G.WELL_KNOWN_KEYS[:6] + list(G.MINED_STRINGS)[:40]:
@@ -1241,6 +1266,21 @@ def c10_frame_case(kind, payload, ch):
     return None if ok and r[0] == len(b) else ('the same %s frame' % kind, lanes.frame_sx(f2)[:200])
 
 
+@replayer
+def c10_header_size_case(n):
+    """a content header announcing a body of n bytes: refused, or decoded with exactly that size (and written as the 8
+    big-endian bytes of n)"""
+    k, b = catching(frame.marshal, header.ContentHeader(0, n, commands.Basic.Properties(content_type='a')), 1)
+    if k != 'ok':
+        return None
+    if isinstance(n, int) and not isinstance(n, bool) and 0 <= n < 2 ** 64 and b[11:19] != n.to_bytes(8, 'big'):
+        return ('body size bytes %s' % n.to_bytes(8, 'big').hex(), b[11:19].hex())
+    k2, r = catching(frame.unmarshal, b)
+    if k2 != 'ok' or r[2].body_size != n or type(r[2].body_size) is not int and not isinstance(n, bool):
+        return ('refused, or body_size %r back' % (n,), repr(r[2].body_size) if k2 == 'ok' else repr(r))
+    return None
+
+
 C10_PRIMS = {'boolean': 'boolean', 'byte_array': 'byte_array', 'decimal': 'decimal', 'double': 'double', 'floating_point': 'floating_point',
              'long_int': 'long_int', 'long_uint': 'long_uint', 'long_long_int': 'long_long_int', 'long_string': 'long_str', 'octet': 'octet',
              'short_int': 'short_int', 'short_uint': 'short_uint', 'short_short_int': 'short_short_int', 'short_short_uint': 'short_short_uint',
@@ -1295,6 +1335,16 @@ def oracle_c10(ctx):
                 if k != 'ok' or bad:
                     res.violation('memoryview body frame', {'fn': 'c10_frame_case', 'args': pyrepr(('bodymv', (data, start, stop, mutable), 1))},
                                   bad[0] if k == 'ok' else 'oracle runs', bad[1] if k == 'ok' else repr(bad))
+    sizes = set()
+    for kb in range(0, 66):
+        sizes |= {2 ** kb - 1, 2 ** kb, 2 ** kb + 1, -(2 ** kb), (2 ** kb) | 0xFFFFFFFF, ((2 ** kb) | 0xFFFFFFFF) - 1, 2 ** kb + 2 ** 32 - 1}
+    sizes |= {0x0020000FFFFFFFFF, 0x1234567FFFFFFFFF, 2 ** 53 + 1, 2 ** 64 - 2 ** 11, 2 ** 63 + 2 ** 10 - 1}
+    for n in sorted(sizes) + [1.0, 1.5, True, None, '1', D(1), b'1', float(2 ** 53)]:
+        res.case('body_size %r' % (n,), tag='header body size')
+        k, bad = catching(c10_header_size_case, n)
+        if k != 'ok' or bad:
+            res.violation('content header body size %r' % (n,), {'fn': 'c10_header_size_case', 'args': pyrepr((n,))},
+                          bad[0] if k == 'ok' else 'oracle runs', bad[1] if k == 'ok' else repr(bad))
     # the primitive encoders called directly with a value of ANY type: refused, or decodes back to it
     g.exotic = True
     pvals = [2 ** 53, 2 ** 53 + 1, -2 ** 53 - 1, 2 ** 63 - 1, 10 ** 22 + 1, 2 ** 24 + 1, 16777217.0, 1, 0, -1, 255, 256, True, False, 1.0, 0.5, '1', b'1',
@@ -2353,8 +2403,95 @@ def oracle_c14(ctx):
             res.violation('index %s reaches a method class although the specification has no such method' % hex(key),
                           {'fn': 'c14_reach_case', 'args': pyrepr((key,))}, bad[0], bad[1])
             break
+    env_snapshots(res, 'c14')
     res.notes.append('exhaustive over %d methods and 14 properties' % len(seen))
     return res
+
+
+SNAPSHOT_CHILD = r"""
+import sys, json
+sys.path.insert(0, sys.argv[1])
+which = sys.argv[2]
+from pamqp import commands, constants, exceptions
+out = {}
+if which == 'c17':
+    out['mapping'] = [[k, v.__name__, getattr(v, 'name', None), getattr(v, 'value', None), issubclass(v, exceptions.AMQPSoftError),
+                       issubclass(v, exceptions.AMQPHardError), issubclass(v, exceptions.PAMQPException)] for k, v in exceptions.CLASS_MAPPING.items()]
+    out['classes'] = sorted([n, getattr(c, 'name', None), getattr(c, 'value', None), [b.__name__ for b in c.__mro__]]
+                            for n, c in vars(exceptions).items() if isinstance(c, type) and c.__module__ == exceptions.__name__)
+    out['constants'] = sorted([n, type(v).__name__, repr(v)] for n, v in vars(constants).items()
+                              if not n.startswith('__') and isinstance(v, (int, str, bytes, tuple, list)))
+else:
+    out['index'] = [[k, getattr(v, 'name', None)] for k, v in commands.INDEX_MAPPING.items()]
+    cls_ = []
+    for k, c in list(commands.INDEX_MAPPING.items()) + [(0, commands.Basic.Properties)]:
+        try:
+            o = c()
+            d = [[s_, type(getattr(o, s_)).__name__, repr(getattr(o, s_))] for s_ in c.__slots__]
+        except Exception as e:
+            d = 'err ' + type(e).__name__
+        cls_.append([k, c.name, list(c.__slots__), [c.amqp_type(s_) for s_ in c.__slots__], d, getattr(c, 'synchronous', None),
+                     list(getattr(c, 'valid_responses', [])), c.index, c.frame_id])
+    out['classes'] = cls_
+    out['flags'] = sorted(commands.Basic.Properties.flags.items())
+json.dump(out, sys.stdout, sort_keys=True)
+"""
+
+ENV_POLLUTION = {'RABBITMQ_DEFAULT_USER': 'verif-user', 'RABBITMQ_DEFAULT_PASS': 'verif-pass', 'RABBITMQ_DEFAULT_VHOST': 'verif-vhost',
+                 'RABBITMQ_USER': 'u', 'RABBITMQ_PASSWORD': 'p', 'RABBITMQ_VHOST': 'verif', 'RABBITMQ_HOST': 'h', 'RABBITMQ_PORT': '1', 'RABBITMQ_URL': 'amqp://x',
+                 'AMQP_URL': 'amqp://u:p@h:1/verif', 'AMQP_HOST': 'h', 'AMQP_VHOST': 'verif', 'AMQP_HEARTBEAT': '7', 'AMQP_FRAME_MAX': '4097',
+                 'PAMQP_DEBUG': '1', 'PAMQP_LEGACY': '1', 'PAMQP_STRICT': '1', 'PAMQP_DEPRECATED_RABBITMQ_SUPPORT': '1', 'DEBUG': '1', 'ENV': 'verif',
+                 'ENVIRONMENT': 'production', 'LANG': 'tr_TR.UTF-8', 'LC_ALL': 'C', 'PYTHONHASHSEED': '4242', 'PYTHONUTF8': '0', 'TZ': 'Pacific/Apia',
+                 'HOME': '/nonexistent', 'USER': 'verif', 'HOSTNAME': 'verif-host'}
+
+
+def snapshot_child(which, flags, pollute):
+    env = dict(os.environ, PYTHONDONTWRITEBYTECODE='1')
+    for k in ('PYTHONOPTIMIZE', 'PYTHONDEVMODE', 'PYTHONWARNINGS'):
+        env.pop(k, None)
+    if pollute:
+        env.update(ENV_POLLUTION)
+        for m in G.MINED_STRINGS:
+            if m.isupper() and m.replace('_', '').isalnum() and len(m) > 3:
+                env[m] = 'verif-env-value'
+    p = subprocess.run([sys.executable, '-B'] + list(flags) + ['-c', SNAPSHOT_CHILD, real.REPO, which], stdout=subprocess.PIPE, stderr=subprocess.PIPE,
+                       env=env, timeout=120)
+    if p.returncode != 0:
+        return {'error': p.stderr.decode('utf-8', 'replace')[-400:]}
+    return json.loads(p.stdout)
+
+
+@replayer
+def env_snapshot_case(which, flags, pollute):
+    """the catalogue / the reply-code and constant tables as a fresh interpreter sees them with the given interpreter
+    flags and (optionally) an environment full of variables a deployment might set: identical to a plain interpreter's"""
+    plain = snapshot_child(which, [], False)
+    got = snapshot_child(which, flags, pollute)
+    if got == plain:
+        return None
+    for k in sorted(set(plain) | set(got)):
+        if plain.get(k) != got.get(k):
+            a, b = plain.get(k), got.get(k)
+            if isinstance(a, list) and isinstance(b, list):
+                for x, y in zip(a, b):
+                    if x != y:
+                        return ('%s: %s' % (k, json.dumps(x)[:300]), json.dumps(y)[:300])
+                return ('%s: %d entries' % (k, len(a)), '%d entries' % len(b))
+            return ('%s: %s' % (k, json.dumps(a)[:300]), json.dumps(b)[:300])
+    return None
+
+
+ENV_VARIANTS = [(['-O'], False), (['-OO'], False), (['-X', 'dev'], False), (['-bb'], False), ([], True), (['-O'], True), (['-X', 'utf8=0'], False),
+                (['-X', 'int_max_str_digits=640'], False)]
+
+
+def env_snapshots(res, which):
+    for flags, pollute in ENV_VARIANTS:
+        res.case('snapshot %s %r %s' % (which, flags, pollute), tag='interpreter flags / environment')
+        k, bad = catching(env_snapshot_case, which, flags, pollute)
+        if k != 'ok' or bad:
+            res.violation('the tables differ in an interpreter started with %s%s' % (' '.join(flags) or 'no flags', ' and a populated environment' if pollute else ''),
+                          {'fn': 'env_snapshot_case', 'args': pyrepr((which, flags, pollute))}, bad[0] if k == 'ok' else 'oracle runs', bad[1] if k == 'ok' else repr(bad))
 
 
 @replayer
@@ -2393,6 +2530,28 @@ def c14_instance_case(name):
             k2, r = catching(frame.unmarshal, b)
             if k2 == 'ok':
                 insts.append(('decoded ' + label, r[2]))
+    # constructed POSITIONALLY with one distinct value per argument: the i-th constructor parameter is the i-th wire argument
+    distinct = []
+    for i, (a, t, d) in enumerate(args):
+        distinct.append({'bit': bool(i % 2), 'octet': 10 + i, 'short': 0 if a == 'ticket' else 100 + i, 'long': 1000 + i, 'longlong': 10000 + i, 'shortstr': 'n%d' % i,
+                         'longstr': 'l%d' % i, 'table': {'k%d' % i: i}, 'timestamp': datetime.datetime(2020, 1, 1 + i, tzinfo=UTC)}[t])
+    for c_ in spec_tables.CONSTRAINTS.get(name, []):
+        for i, (a, t, d) in enumerate(args):
+            if a == c_[1] and c_[0] == 'eq':
+                distinct[i] = c_[2]
+            if a == c_[1] and c_[0] == 'false':
+                distinct[i] = False
+    kpos, opos = catching(lambda: cls(*distinct))
+    if kpos == 'ok':
+        got_pos = [getattr(opos, S.pyname(a[0])) for a in args]
+        if got_pos != distinct:
+            return ('%s(*%r) stores the values under %r in that order' % (name, distinct, [S.pyname(a[0]) for a in args]), repr(got_pos))
+        insts.append(('positional', opos))
+        k, b = catching(frame.marshal, opos, 1)
+        if k == 'ok':
+            k2, r = catching(frame.unmarshal, b)
+            if k2 == 'ok' and [getattr(r[2], S.pyname(a[0])) for a in args] != distinct:
+                return ('%s(*%r) round-trips' % (name, distinct), repr([getattr(r[2], S.pyname(a[0])) for a in args]))
     for label, o in insts:
         got = (type(o) is cls, o.synchronous, list(o.valid_responses), o.index, o.frame_id, o.name, list(o.__slots__), [o.amqp_type(s_) for s_ in o.__slots__])
         want = (True, bool(replies), replies, key, mid, name, [S.pyname(a[0]) for a in args], [a[1] for a in args])
@@ -2455,8 +2614,52 @@ def oracle_c17(ctx):
         res.violation('CLASS_MAPPING changes when an application subclasses a reply-code exception',
                       {'fn': 'c14_case', 'args': pyrepr(('CLASS_MAPPING subclass',))}, 'unchanged',
                       [k for k in exceptions.CLASS_MAPPING if exceptions.CLASS_MAPPING.get(k) is not before.get(k)])
+    # the classes as an application uses them: built from a close frame's reply text, raised, caught by their bases
+    texts = [(), ('boom',), ("NOT_FOUND - no queue 'q' in vhost '/'",), ('ACCESS_REFUSED - operation not permitted',), ('PRECONDITION_FAILED - x',),
+             ('CHANNEL_ERROR - second channel.open seen',), ('INTERNAL_ERROR',), ('NOT-FOUND - x',), (404, 'NOT_FOUND - x'), ('a', 'b', 'c'), ('',), (None,), ({'a': 1},)]
+    for code, (nm, kind) in S.REPLY.items():
+        texts_ = texts + [('%s - text' % nm.replace('-', '_'),), ('%s - text' % nm,), (nm,)]
+        for args_ in texts_:
+            res.case('instance %d %r' % (code, args_), tag='instances')
+            k, bad = catching(c17_instance_case, code, args_)
+            if k != 'ok' or bad:
+                res.violation('reply code %d: an instance built with %r' % (code, args_), {'fn': 'c17_instance_case', 'args': pyrepr((code, args_))},
+                              bad[0] if k == 'ok' else 'oracle runs', bad[1] if k == 'ok' else repr(bad))
+    env_snapshots(res, 'c17')
     res.notes.append('exhaustive over 18 reply codes and %d constants' % len(S.CONSTANTS))
     return res
+
+
+@replayer
+def c17_instance_case(code, args_):
+    """an exception INSTANCE (built as a client does, from the reply text of a close frame) carries the specification's
+    name and value, is raised and caught by its own class, its soft / hard base and the common base - and by no other"""
+    S = spec_tables
+    nm, kind = S.REPLY[code]
+    cls = exceptions.CLASS_MAPPING[code]
+    e = cls(*args_)
+    if e.name != nm or e.value != code or type(e).name != nm or type(e).value != code:
+        return ((nm, code), (e.name, e.value))
+    catching(str, e)
+    catching(repr, e)
+    want = exceptions.AMQPSoftError if kind == 'soft' else exceptions.AMQPHardError
+    other = exceptions.AMQPHardError if kind == 'soft' else exceptions.AMQPSoftError
+    for base in (cls, want, exceptions.AMQPError, exceptions.PAMQPException, Exception):
+        try:
+            raise e
+        except base:
+            pass
+        except Exception as x:  # noqa
+            return ('caught as %s' % base.__name__, 'escaped as %s' % type(x).__name__)
+    try:
+        raise e
+    except other:
+        return ('not caught as %s' % other.__name__, 'caught')
+    except Exception:  # noqa
+        pass
+    if getattr(exceptions, cls.__name__, None) is not cls:
+        return ('exceptions.%s is the mapped class' % cls.__name__, repr(getattr(exceptions, cls.__name__, None)))
+    return None
 
 
 def spec_names(cls):
